@@ -923,3 +923,517 @@ Lemma dir_fixed_suffix_ids_both_orders :
     puts dir_kind_fixed st0 [([97], an_obj); ([98;97], an_nc)] = Ok s2 /\
     length (st_nc s1) = 1%nat /\ length (st_nc s2) = 1%nat /\ length (st_done s1) = 1%nat /\ length (st_done s2) = 1%nat.
 Proof. eexists. eexists. split; [vm_compute; reflexivity|]. split; [vm_compute; reflexivity|]. repeat split. Qed.
+
+(* ================================================================== the repaired code *)
+
+(* ------------------------------------------------------------------ the repaired code: store *)
+
+Lemma upsert_absent {A} n (x : A) l : mem_str n (map fst l) = false -> upsert n x l = l ++ [(n, x)].
+Proof. intros H. unfold upsert. rewrite H. reflexivity. Qed.
+
+Lemma upsert_present {A} n (x : A) l : mem_str n (map fst l) = true ->
+  upsert n x l = map (fun e => if str_eqb (fst e) n then (n, x) else e) l.
+Proof. intros H. unfold upsert. rewrite H. reflexivity. Qed.
+
+Lemma replace_names {A} n (x : A) l :
+  map fst (map (fun e : str * A => if str_eqb (fst e) n then (n, x) else e) l) = map fst l.
+Proof.
+  rewrite map_map. apply map_ext. intros e. destruct (str_eqb (fst e) n) eqn:E; [|reflexivity].
+  apply str_eqb_eq in E. symmetry. exact E.
+Qed.
+
+Lemma find_none_intro {A} (p : A -> bool) l : (forall x, In x l -> p x = false) -> find p l = None.
+Proof.
+  induction l as [|x l IH]; intros H; simpl; [reflexivity|].
+  rewrite (H x (or_introl eq_refl)). apply IH. intros y Hy. apply H. right. exact Hy.
+Qed.
+
+Lemma filter_map_comm {A} (p : A -> bool) (f : A -> A) l :
+  (forall x, p (f x) = p x) -> filter p (map f l) = map f (filter p l).
+Proof.
+  intros H. induction l as [|x l IH]; simpl; [reflexivity|]. rewrite H. destruct (p x); simpl; rewrite IH; reflexivity.
+Qed.
+
+Lemma str_eqb_sym a b : str_eqb a b = str_eqb b a.
+Proof.
+  destruct (str_eqb a b) eqn:E.
+  - apply str_eqb_eq in E. subst. symmetry. apply str_eqb_refl.
+  - symmetry. apply str_eqb_neq. apply str_eqb_neq in E. congruence.
+Qed.
+
+Lemma mem_str_app x l1 l2 : mem_str x (l1 ++ l2) = mem_str x l1 || mem_str x l2.
+Proof. unfold mem_str. apply existsb_app. Qed.
+
+Lemma mem_filter_names {A} (g : str * A -> bool) m l :
+  (forall e, fst e = m -> g e = true) ->
+  mem_str m (map fst (filter g l)) = mem_str m (map fst l).
+Proof.
+  intros H. destruct (mem_str m (map fst l)) eqn:E.
+  - apply mem_str_In. apply mem_str_In in E. apply in_map_iff in E. destruct E as [e [E He]].
+    apply in_map_iff. exists e. split; [exact E|]. apply filter_In. split; [exact He|apply H; exact E].
+  - apply mem_str_notIn. apply mem_str_notIn in E. intros Hin. apply E. apply in_map_iff in Hin.
+    destruct Hin as [e [E' He]]. apply filter_In in He. apply in_map_iff. exists e. split; [exact E'|apply He].
+Qed.
+
+Section StoreR.
+Variable K : skind.
+Variable U : list str.
+Hypothesis G : good_kind K U.
+
+Lemma put_completed_r st a d :
+  In a U -> st_mode st <> 0 -> ~ In (k_fname K a) (done_names st) -> is_nc d = false ->
+  put_r K st (a, d) =
+    Ok (mkstore (st_done st ++ [(k_fname K a, (a, d))])
+                (filter (fun e => negb (k_retire K (fst e) a)) (st_nc st)) (st_logs st) (st_mode st)).
+Proof.
+  intros Ha Hm Hn Hd. unfold put_r, writer_main_v. cbn [fst snd].
+  assert (Hid : match a with [] => unique_id_of (source_of d) | c :: s => Some (c :: s) end = Some a).
+  { destruct a; [exfalso; eapply (g_nonempty K U G); [exact Ha|reflexivity]|reflexivity]. }
+  rewrite Hid, Hd. unfold write_v, check_writable, contains.
+  apply Z.eqb_neq in Hm. rewrite Hm.
+  rewrite (g_item_fname K U G a Ha).
+  apply mem_str_notIn in Hn. rewrite Hn. cbn [andb repaired v_upsert].
+  rewrite upsert_absent by exact Hn. reflexivity.
+Qed.
+
+Lemma put_failed_r st a d :
+  In a U -> st_mode st <> 0 -> ~ In (k_fname K a) (done_names st) -> is_nc d = true ->
+  put_r K st (a, d) =
+    Ok (mkstore (st_done st) (upsert (k_ncname K a) d (st_nc st)) (st_logs st) (st_mode st)).
+Proof.
+  intros Ha Hm Hn Hd. unfold put_r, writer_main_v. cbn [fst snd].
+  assert (Hid : match a with [] => unique_id_of (source_of d) | c :: s => Some (c :: s) end = Some a).
+  { destruct a; [exfalso; eapply (g_nonempty K U G); [exact Ha|reflexivity]|reflexivity]. }
+  rewrite Hid, Hd. unfold write_nc_v, check_writable, contains.
+  apply Z.eqb_neq in Hm. rewrite Hm.
+  rewrite (g_item_nc K U G a Ha).
+  apply mem_str_notIn in Hn. rewrite Hn. reflexivity.
+Qed.
+
+(** no later record of a run touches the not-completed name of an earlier failed one *)
+Lemma later_do_not_retire a d rs :
+  In a U -> incl (map fst rs) U -> ~ In a (map fst rs) ->
+  retired_by K rs (k_ncname K a, d) = false.
+Proof.
+  intros Ha Hincl Hna. unfold retired_by. apply existsb_false. intros [b db] Hb. cbn [fst snd].
+  assert (Hbin : In b (map fst rs)) by (apply in_map_iff; exists (b, db); split; [reflexivity|exact Hb]).
+  rewrite (g_retire K U G a b Ha (Hincl b Hbin)).
+  assert (H : a <> b) by (intros ->; contradiction).
+  apply str_eqb_neq in H. rewrite H. apply andb_false_r.
+Qed.
+
+Lemma later_do_not_refresh a rs :
+  In a U -> incl (map fst rs) U -> ~ In a (map fst rs) ->
+  find (failed_named K (k_ncname K a)) rs = None.
+Proof.
+  intros Ha Hincl Hna. apply find_none_intro. intros [b db] Hb. unfold failed_named. cbn [fst snd].
+  assert (Hbin : In b (map fst rs)) by (apply in_map_iff; exists (b, db); split; [reflexivity|exact Hb]).
+  destruct (str_eqb (k_ncname K b) (k_ncname K a)) eqn:E; [|apply andb_false_r].
+  apply str_eqb_eq in E. apply (g_ncname_inj K U G b a (Hincl b Hbin) Ha) in E. subst b. contradiction.
+Qed.
+
+Lemma puts_r_final : forall rs st,
+  ready K U st rs ->
+  puts_r K st rs = Ok (mkstore (final_done K st rs) (final_nc_r K st rs) (st_logs st) (st_mode st)).
+Proof.
+  induction rs as [|[a d] rs IH]; intros st [Hm [Hnd [Hincl Hfresh]]].
+  - simpl. unfold final_done, final_nc_r, retired_by, refreshed. simpl. rewrite !app_nil_r, filter_true.
+    rewrite map_id. destruct st; reflexivity.
+  - cbn [map fst] in Hnd, Hincl, Hfresh. inversion Hnd as [|x l Hna Hnd']; subst.
+    assert (Ha : In a U) by (apply Hincl; left; reflexivity).
+    assert (Hincl' : incl (map fst rs) U) by (intros x Hx; apply Hincl; right; exact Hx).
+    assert (Hfa : ~ In (k_fname K a) (done_names st)) by (apply Hfresh; left; reflexivity).
+    cbn [puts_r]. destruct (is_nc d) eqn:Hd.
+    + rewrite (put_failed_r st a d Ha Hm Hfa Hd).
+      rewrite IH.
+      2:{ split; [exact Hm|]. split; [exact Hnd'|]. split; [exact Hincl'|].
+          intros b Hb. cbn. apply Hfresh. right. exact Hb. }
+      f_equal. unfold final_done. cbn [st_done st_nc st_logs st_mode].
+      unfold completed_rec at 2. cbn [filter snd]. rewrite Hd. cbn [negb].
+      f_equal. unfold final_nc_r. cbn [st_nc].
+      set (n := k_ncname K a).
+      assert (Hkeep_ext : forall e, negb (retired_by K ((a, d) :: rs) e) = negb (retired_by K rs e)).
+      { intros e. unfold retired_by. cbn [existsb]. change (completed_rec (a, d)) with (negb (is_nc d)). rewrite Hd. reflexivity. }
+      destruct (mem_str n (map fst (st_nc st))) eqn:Hmem.
+      * (* the input already had a not-completed record: replaced in place *)
+        rewrite (upsert_present n d (st_nc st) Hmem).
+        set (repl := fun e : str * value => if str_eqb (fst e) n then (n, d) else e).
+        assert (Hfst : forall e, fst (repl e) = fst e).
+        { intros e. unfold repl. destruct (str_eqb (fst e) n) eqn:E; [|reflexivity]. apply str_eqb_eq in E. symmetry. exact E. }
+        rewrite filter_map_comm.
+        2:{ intros e. unfold retired_by. rewrite Hfst. reflexivity. }
+        rewrite map_map. f_equal.
+        -- rewrite (filter_ext _ _ Hkeep_ext). apply map_ext. intros e. unfold refreshed. rewrite Hfst.
+           cbn [find]. unfold failed_named at 2. cbn [fst snd]. unfold failed_rec. cbn [snd]. rewrite Hd. cbn [andb].
+           fold n. unfold repl. rewrite (str_eqb_sym n (fst e)).
+           destruct (str_eqb (fst e) n) eqn:E.
+           ++ apply str_eqb_eq in E. rewrite E. unfold n. rewrite (later_do_not_refresh a rs Ha Hincl' Hna). reflexivity.
+           ++ reflexivity.
+        -- apply f_equal. cbn [filter].
+           assert (Hhead : newly_failed K st (a, d) = false).
+           { unfold newly_failed. cbn [fst snd]. fold n. rewrite Hmem. apply andb_false_r. }
+           rewrite Hhead. apply filter_ext. intros r. unfold newly_failed. cbn [st_nc]. unfold repl.
+           rewrite replace_names. reflexivity.
+      * (* a new not-completed record *)
+        subst n. rewrite (upsert_absent _ d (st_nc st) Hmem).
+        rewrite filter_app. cbn [filter]. rewrite (later_do_not_retire a d rs Ha Hincl' Hna). cbn [negb].
+        rewrite map_app. cbn [map].
+        assert (Hself : refreshed K rs (k_ncname K a, d) = (k_ncname K a, d)).
+        { unfold refreshed. cbn [fst]. rewrite (later_do_not_refresh a rs Ha Hincl' Hna). reflexivity. }
+        rewrite Hself.
+        assert (Hhead : newly_failed K st (a, d) = true).
+        { unfold newly_failed, failed_rec. cbn [fst snd]. rewrite Hd, Hmem. reflexivity. }
+        rewrite Hhead. cbn [map fst snd].
+        rewrite <- app_assoc. cbn [app]. f_equal.
+        -- rewrite (filter_ext _ _ Hkeep_ext). apply map_ext_in. intros e He. apply filter_In in He. destruct He as [He _].
+           unfold refreshed. cbn [find]. unfold failed_named at 2. cbn [fst snd].
+           destruct (str_eqb (k_ncname K a) (fst e)) eqn:E; [|rewrite andb_false_r; reflexivity].
+           apply str_eqb_eq in E. apply mem_str_notIn in Hmem. exfalso. apply Hmem. rewrite E. apply in_map. exact He.
+        -- f_equal. apply f_equal. apply filter_ext_in. intros [b db] Hb. unfold newly_failed. cbn [st_nc fst snd].
+           rewrite map_app, mem_str_app. cbn [map fst mem_str existsb]. 
+           assert (Hbin : In b (map fst rs)) by (apply in_map_iff; exists (b, db); split; [reflexivity|exact Hb]).
+           destruct (str_eqb (k_ncname K b) (k_ncname K a)) eqn:E.
+           ++ apply str_eqb_eq in E. apply (g_ncname_inj K U G b a (Hincl' b Hbin) Ha) in E. subst b. contradiction.
+           ++ rewrite !orb_false_r. reflexivity.
+    + rewrite (put_completed_r st a d Ha Hm Hfa Hd).
+      rewrite IH.
+      2:{ split; [exact Hm|]. split; [exact Hnd'|]. split; [exact Hincl'|].
+          intros b Hb. unfold done_names. cbn [st_done]. rewrite map_app. cbn [map fst]. intros Hin.
+          apply in_app_or in Hin. destruct Hin as [Hin|[E|[]]].
+          - apply (Hfresh b (or_intror Hb)). exact Hin.
+          - apply (g_fname_inj K U G) in E; [subst; contradiction|exact Ha|apply Hincl; right; exact Hb]. }
+      f_equal. unfold final_done. cbn [st_done st_nc st_logs st_mode].
+      unfold completed_rec at 2. cbn [filter snd]. rewrite Hd. cbn [negb map fst snd].
+      f_equal; [rewrite <- app_assoc; reflexivity|].
+      unfold final_nc_r. cbn [st_nc]. f_equal.
+      * rewrite filter_filter.
+        assert (Hf : forall e, negb (k_retire K (fst e) a) && negb (retired_by K rs e) = negb (retired_by K ((a, d) :: rs) e)).
+        { intros e. unfold retired_by. cbn [existsb]. change (completed_rec (a, d)) with (negb (is_nc d)). rewrite Hd. cbn [negb andb fst].
+          rewrite negb_orb. reflexivity. }
+        rewrite (filter_ext _ _ Hf). apply map_ext. intros e. unfold refreshed. cbn [find].
+        unfold failed_named at 2. unfold failed_rec. cbn [snd]. rewrite Hd. reflexivity.
+      * cbn [filter]. unfold newly_failed at 2. unfold failed_rec at 1. cbn [snd]. rewrite Hd. cbn [andb].
+        apply f_equal. apply filter_ext_in. intros [b db] Hb. unfold newly_failed. cbn [st_nc fst snd].
+        destruct (failed_rec (b, db)); [|reflexivity]. cbn [andb]. f_equal.
+        apply mem_filter_names. intros e He. rewrite He.
+        assert (Hbin : In b (map fst rs)) by (apply in_map_iff; exists (b, db); split; [reflexivity|exact Hb]).
+        rewrite (g_retire K U G b a (Hincl' b Hbin) Ha).
+        assert (H : b <> a) by (intros ->; contradiction). apply str_eqb_neq in H. rewrite H. reflexivity.
+Qed.
+End StoreR.
+
+
+Lemma find_none_iff_local {A} (p : A -> bool) l : find p l = None -> forall x, In x l -> p x = false.
+Proof. intros H x Hx. apply (List.find_none _ _ H x Hx). Qed.
+
+Lemma find_perm_unique {A} (p : A -> bool) l l' :
+  Permutation l l' ->
+  (forall x y, In x l -> In y l -> p x = true -> p y = true -> x = y) ->
+  find p l = find p l'.
+Proof.
+  induction 1 as [|x l l' P IH|x y l|l l' l'' P1 IH1 P2 IH2]; intros Hu.
+  - reflexivity.
+  - simpl. destruct (p x); [reflexivity|]. apply IH. intros a b Ha Hb. apply Hu; right; assumption.
+  - simpl. destruct (p y) eqn:Ey, (p x) eqn:Ex; try reflexivity.
+    f_equal. apply Hu; [left; reflexivity|right; left; reflexivity|exact Ey|exact Ex].
+  - rewrite IH1 by exact Hu. apply IH2. intros a b Ha Hb. apply Hu; eapply Permutation_in; try (apply Permutation_sym; exact P1); assumption.
+Qed.
+
+Section OrderR.
+Variable K : skind.
+Variable U : list str.
+Hypothesis G : good_kind K U.
+
+Lemma failed_named_unique st rs n :
+  ready K U st rs ->
+  forall x y, In x rs -> In y rs -> failed_named K n x = true -> failed_named K n y = true -> x = y.
+Proof.
+  intros [Hm [Hnd [Hincl Hfresh]]] [a d] [b d'] Hx Hy Px Py. unfold failed_named in *. cbn [fst snd] in *.
+  apply andb_true_iff in Px. apply andb_true_iff in Py. destruct Px as [_ Px], Py as [_ Py].
+  apply str_eqb_eq in Px. apply str_eqb_eq in Py.
+  assert (Ha : In a U) by (apply Hincl; apply in_map_iff; exists (a, d); split; [reflexivity|exact Hx]).
+  assert (Hb : In b U) by (apply Hincl; apply in_map_iff; exists (b, d'); split; [reflexivity|exact Hy]).
+  assert (a = b) by (apply (g_ncname_inj K U G a b Ha Hb); congruence). subst b.
+  f_equal. eapply NoDup_fst_unique; eassumption.
+Qed.
+
+Lemma final_nc_r_perm st rs rs' :
+  ready K U st rs -> Permutation rs rs' -> Permutation (final_nc_r K st rs) (final_nc_r K st rs').
+Proof.
+  intros R P. unfold final_nc_r.
+  replace (map (refreshed K rs) (filter (fun e => negb (retired_by K rs e)) (st_nc st)))
+    with (map (refreshed K rs') (filter (fun e => negb (retired_by K rs' e)) (st_nc st))).
+  - apply Permutation_app_head. apply Permutation_map. apply Permutation_filter'. exact P.
+  - replace (filter (fun e => negb (retired_by K rs' e)) (st_nc st)) with (filter (fun e => negb (retired_by K rs e)) (st_nc st)).
+    + apply map_ext. intros e. unfold refreshed. rewrite (find_perm_unique _ rs rs' P); [reflexivity|].
+      apply (failed_named_unique st rs (fst e) R).
+    + apply filter_ext. intros e. unfold retired_by. f_equal. apply existsb_perm. exact P.
+Qed.
+
+Lemma puts_r_any_order st rs rs' :
+  ready K U st rs -> Permutation rs rs' ->
+  exists st1 st2, puts_r K st rs = Ok st1 /\ puts_r K st rs' = Ok st2 /\
+    Permutation (st_done st1) (st_done st2) /\ Permutation (st_nc st1) (st_nc st2) /\
+    st_logs st1 = st_logs st2 /\ st_mode st1 = st_mode st2.
+Proof.
+  intros R P. pose proof (ready_perm K U st rs rs' P R) as R'.
+  eexists. eexists. split; [apply (puts_r_final K U G); exact R|]. split; [apply (puts_r_final K U G); exact R'|].
+  cbn [st_done st_nc st_logs st_mode]. split; [apply final_done_perm; exact P|]. split; [apply final_nc_r_perm; assumption|].
+  split; reflexivity.
+Qed.
+
+Lemma refreshed_fst rs e : fst (refreshed K rs e) = fst e.
+Proof. unfold refreshed. destruct (find _ rs); reflexivity. Qed.
+
+Lemma final_r_completed_once st rs a d :
+  ready K U st rs -> In (a, d) rs -> is_nc d = false ->
+  In (k_fname K a, (a, d)) (final_done K st rs) /\ ~ In (k_ncname K a) (map fst (final_nc_r K st rs)).
+Proof.
+  intros R Hin Hd. pose proof R as [Hm [Hnd [Hincl Hfresh]]].
+  assert (Ha : In a U) by (apply Hincl; apply in_map_iff; exists (a, d); split; [reflexivity|exact Hin]).
+  split; [apply (final_completed_once K U G st rs a d R Hin Hd)|].
+  unfold final_nc_r. rewrite map_app. intros H. apply in_app_or in H. destruct H as [H|H].
+  - rewrite map_map in H. apply in_map_iff in H. destruct H as [e [E He]]. rewrite refreshed_fst in E.
+    apply filter_In in He. destruct He as [_ He].
+    assert (Hr : retired_by K rs e = true); [|rewrite Hr in He; discriminate].
+    unfold retired_by. apply existsb_exists. exists (a, d). split; [exact Hin|].
+    unfold completed_rec. cbn [fst snd]. rewrite Hd, E. rewrite (g_retire K U G a a Ha Ha), str_eqb_refl. reflexivity.
+  - rewrite map_map in H. cbn [fst] in H. apply in_map_iff in H. destruct H as [[b d'] [E Hb]]. cbn [fst] in E.
+    apply filter_In in Hb. destruct Hb as [Hb Hf]. unfold newly_failed, failed_rec in Hf. cbn [snd] in Hf.
+    apply andb_true_iff in Hf. destruct Hf as [Hf _].
+    assert (Hbu : In b U) by (apply Hincl; apply in_map_iff; exists (b, d'); split; [reflexivity|exact Hb]).
+    apply (g_ncname_inj K U G b a Hbu Ha) in E. subst b.
+    assert (d = d') by (eapply NoDup_fst_unique; eassumption). subst d'. congruence.
+Qed.
+
+Lemma final_r_failed_once st rs a d :
+  ready K U st rs -> In (a, d) rs -> is_nc d = true ->
+  In (k_ncname K a, d) (final_nc_r K st rs) /\ ~ In (k_fname K a) (map fst (final_done K st rs)).
+Proof.
+  intros R Hin Hd. pose proof R as [Hm [Hnd [Hincl Hfresh]]].
+  assert (Ha : In a U) by (apply Hincl; apply in_map_iff; exists (a, d); split; [reflexivity|exact Hin]).
+  split; [|apply (final_failed_once K U G st rs a d R Hin Hd)].
+  unfold final_nc_r. apply in_or_app.
+  destruct (mem_str (k_ncname K a) (map fst (st_nc st))) eqn:Hmem.
+  - left. apply mem_str_In in Hmem. apply in_map_iff in Hmem. destruct Hmem as [e [E He]].
+    apply in_map_iff. exists e. split.
+    + unfold refreshed.
+      assert (Hf : exists r, find (failed_named K (fst e)) rs = Some r /\ r = (a, d)).
+      { destruct (find (failed_named K (fst e)) rs) as [r|] eqn:F.
+        - exists r. split; [reflexivity|]. apply find_some in F. destruct F as [Hr Pr].
+          apply (failed_named_unique st rs (fst e) R r (a, d) Hr Hin Pr).
+          unfold failed_named, failed_rec. cbn [fst snd]. rewrite Hd, E. apply str_eqb_refl.
+        - exfalso. pose proof (find_none_iff_local _ _ F (a, d) Hin) as Hn.
+          unfold failed_named, failed_rec in Hn. cbn [fst snd] in Hn. rewrite Hd, E, str_eqb_refl in Hn. discriminate. }
+      destruct Hf as [r [F ->]]. rewrite F. cbn [snd]. rewrite E. reflexivity.
+    + apply filter_In. split; [exact He|].
+      assert (Hr : retired_by K rs e = false); [|rewrite Hr; reflexivity].
+      unfold retired_by. apply existsb_false. intros [b db] Hb. cbn [fst snd]. rewrite E.
+      assert (Hbu : In b U) by (apply Hincl; apply in_map_iff; exists (b, db); split; [reflexivity|exact Hb]).
+      rewrite (g_retire K U G a b Ha Hbu).
+      destruct (str_eqb a b) eqn:Eab; [|apply andb_false_r].
+      apply str_eqb_eq in Eab. subst b. assert (d = db) by (eapply NoDup_fst_unique; eassumption). subst db.
+      unfold completed_rec. cbn [snd]. rewrite Hd. reflexivity.
+  - right. apply in_map_iff. exists (a, d). split; [reflexivity|]. apply filter_In. split; [exact Hin|].
+    unfold newly_failed, failed_rec. cbn [fst snd]. rewrite Hd, Hmem. reflexivity.
+Qed.
+
+(** no name is listed twice — also when a failing input already had a not-completed record *)
+Lemma final_nc_r_nodup st rs :
+  ready K U st rs -> NoDup (map fst (st_nc st)) -> NoDup (map fst (final_nc_r K st rs)).
+Proof.
+  intros [Hm [Hnd [Hincl Hfresh]]] Hold. unfold final_nc_r. rewrite map_app, !map_map. cbn [fst].
+  apply NoDup_app_intro.
+  - rewrite (map_ext _ fst (refreshed_fst rs)). apply NoDup_map_filter. exact Hold.
+  - rewrite <- map_map. apply NoDup_map_inj_in.
+    + intros x y Hx Hy. apply (g_ncname_inj K U G).
+      * apply Hincl. apply in_map_iff in Hx. destruct Hx as [r [E Hr]]. apply filter_In in Hr. apply in_map_iff. exists r. split; [exact E|apply Hr].
+      * apply Hincl. apply in_map_iff in Hy. destruct Hy as [r [E Hr]]. apply filter_In in Hr. apply in_map_iff. exists r. split; [exact E|apply Hr].
+    + apply NoDup_map_filter. exact Hnd.
+  - intros x Hx Hin. apply in_map_iff in Hin. destruct Hin as [r [E Hr]]. apply filter_In in Hr. destruct Hr as [Hr Hf].
+    unfold newly_failed in Hf. apply andb_true_iff in Hf. destruct Hf as [_ Hf].
+    apply negb_true_iff in Hf. apply mem_str_notIn in Hf. apply Hf. subst x.
+    apply in_map_iff in Hx. destruct Hx as [e [E He]]. rewrite refreshed_fst in E. apply filter_In in He.
+    apply in_map_iff. exists e. split; [exact E|apply He].
+Qed.
+End OrderR.
+
+
+(* ------------------------------------------------------------------ the repaired code: apply_to *)
+
+Lemma write_results_v_exc V K l e : fold_left (write_result_v V K) l (Exc e) = Exc e.
+Proof. induction l as [|x l IH]; simpl; [reflexivity|exact IH]. Qed.
+
+Lemma write_results_v_puts K : forall its st,
+  Forall (fun it => item_rec it <> None) its ->
+  write_results_v repaired K st its = puts_r K st (map rec_or its).
+Proof.
+  induction its as [|it its IH]; intros st HF; [reflexivity|].
+  inversion HF as [|x l Hit HF']; subst.
+  unfold write_results_v. cbn [fold_left map puts_r].
+  unfold rec_or at 1. unfold item_rec in *. unfold write_result_v at 2.
+  destruct (result_id it) as [id|]; [|exfalso; apply Hit; reflexivity]. cbn [option_map]. unfold put_r. cbn [fst snd].
+  destruct (writer_main_v repaired K st (result_data it) (Some id)) as [st'|e].
+  - apply IH. exact HF'.
+  - apply write_results_v_exc.
+Qed.
+
+(** after the repair every input of apply_to travels in a source_proxy and none is dropped *)
+Lemma proxy_input_repaired l : proxy_input_v repaired true l = map (fun e => Wrapped e e) l.
+Proof.
+  unfold proxy_input_v, dropped. cbn [repaired v_keepfalsy].
+  induction l as [|m l IH]; [reflexivity|]. cbn [flat_map map app]. rewrite IH. reflexivity.
+Qed.
+
+Section ApplyToR.
+Variable K : skind.
+Variable U : list str.
+Hypothesis G : good_kind K U.
+Variable chain : list step.
+Variable st : store.
+Variable inputs : list value.
+Variable ids : list str.
+Hypothesis Hchain : chain <> [].
+Hypothesis Hinputs : inputs <> [].
+Hypothesis Hmode : st_mode st <> 0.
+Hypothesis Hids : map (fun m => unique_id_of (source_of m)) inputs = map Some ids.
+Hypothesis Hnodup : NoDup ids.
+Hypothesis Hincl : incl ids U.
+
+Let todo := todo_of K st ids inputs.
+Let rs := records_of chain todo.
+Let its := map (source_wrapped chain) (proxy_input_v repaired true (map snd todo)).
+
+Lemma ready_todo_r : ready K U st rs.
+Proof. apply (ready_todo K U G chain st inputs ids Hmode Hids Hnodup Hincl). Qed.
+
+Lemma serial_items_r : Forall (fun it => item_rec it <> None) its /\ map rec_or its = rs.
+Proof.
+  unfold its. rewrite proxy_input_repaired.
+  assert (Hrec : forall p, In p todo -> item_rec (source_wrapped chain (Wrapped (snd p) (snd p))) = Some (fst p, call chain (snd p))).
+  { intros p Hp. destruct (todo_in K st inputs ids Hids p Hp) as [_ [_ [_ Hid]]]. unfold item_rec. cbn [source_wrapped result_id result_data].
+    rewrite Hid. reflexivity. }
+  split.
+  - apply Forall_forall. intros it Hit. rewrite !map_map in Hit. apply in_map_iff in Hit. destruct Hit as [p [E Hp]]. subst it.
+    rewrite (Hrec p Hp). discriminate.
+  - unfold rs, records_of. rewrite !map_map. apply map_ext_in. intros p Hp. unfold rec_or. rewrite (Hrec p Hp). reflexivity.
+Qed.
+
+Lemma apply_to_r_unfold sched :
+  apply_to_v repaired K chain st inputs sched false =
+    write_results_v repaired K st (match sched with None => its | Some p => reorder p its end).
+Proof.
+  unfold apply_to_v. unfold its, todo, todo_of.
+  destruct chain as [|c0 ch]; [congruence|].
+  rewrite (collect_spec K st inputs ids []); [|exact Hids|exact Hnodup]. cbn [app].
+  destruct inputs as [|i0 ins]; [congruence|]. cbn [is_empty repaired v_wrapall].
+  destruct sched; (destruct (write_results_v _ _ _ _) as [s|e]; reflexivity).
+Qed.
+
+Lemma apply_to_r_serial :
+  apply_to_v repaired K chain st inputs None false =
+    Ok (mkstore (final_done K st rs) (final_nc_r K st rs) (st_logs st) (st_mode st)).
+Proof.
+  rewrite apply_to_r_unfold. destruct serial_items_r as [HF Hrs].
+  rewrite write_results_v_puts by exact HF. rewrite Hrs. apply (puts_r_final K U G). apply ready_todo_r.
+Qed.
+
+Lemma results_r_any_permutation its' :
+  Permutation its' its ->
+  exists st', write_results_v repaired K st its' = Ok st' /\
+    Permutation (st_done st') (final_done K st rs) /\ Permutation (st_nc st') (final_nc_r K st rs) /\
+    st_logs st' = st_logs st /\ st_mode st' = st_mode st.
+Proof.
+  intros Pits. destruct serial_items_r as [HF Hrs].
+  assert (HF' : Forall (fun it => item_rec it <> None) its').
+  { eapply Permutation_Forall; [apply Permutation_sym; exact Pits|exact HF]. }
+  rewrite write_results_v_puts by exact HF'.
+  assert (Prs : Permutation rs (map rec_or its')).
+  { rewrite <- Hrs. apply Permutation_map. apply Permutation_sym. exact Pits. }
+  destruct (puts_r_any_order K U G st rs _ ready_todo_r Prs) as [st1 [st2 [H1 [H2 [Pd [Pn [Hl Hmo]]]]]]].
+  rewrite (puts_r_final K U G rs st ready_todo_r) in H1. inversion H1; subst st1. cbn [st_done st_nc st_logs st_mode] in *.
+  exists st2. split; [exact H2|]. split; [apply Permutation_sym; exact Pd|]. split; [apply Permutation_sym; exact Pn|].
+  split; symmetry; assumption.
+Qed.
+
+Lemma apply_to_r_any_schedule sched :
+  Permutation sched (seq 0 (length todo)) ->
+  exists st', apply_to_v repaired K chain st inputs (Some sched) false = Ok st' /\
+    Permutation (st_done st') (final_done K st rs) /\ Permutation (st_nc st') (final_nc_r K st rs) /\
+    st_logs st' = st_logs st /\ st_mode st' = st_mode st.
+Proof.
+  intros P. rewrite apply_to_r_unfold. apply results_r_any_permutation.
+  apply reorder_perm. unfold its. rewrite proxy_input_repaired, !map_length. exact P.
+Qed.
+
+Lemma chunking_r_irrelevant_lemma (chunks : list (list item)) its' :
+  Permutation (concat chunks) (proxy_input_v repaired true (map snd todo)) ->
+  Permutation its' (concat (map (map (source_wrapped chain)) chunks)) ->
+  exists st', write_results_v repaired K st its' = Ok st' /\
+    Permutation (st_done st') (final_done K st rs) /\ Permutation (st_nc st') (final_nc_r K st rs) /\
+    st_logs st' = st_logs st /\ st_mode st' = st_mode st.
+Proof.
+  intros Pc Pi. apply results_r_any_permutation.
+  eapply perm_trans; [exact Pi|]. rewrite <- concat_map. unfold its. apply Permutation_map. exact Pc.
+Qed.
+End ApplyToR.
+
+
+Lemma chunking_r_irrelevant_full : forall K U, good_kind K U -> forall chain st inputs ids,
+  chain <> [] -> inputs <> [] -> st_mode st <> 0 ->
+  map (fun m => unique_id_of (source_of m)) inputs = map Some ids ->
+  NoDup ids -> incl ids U ->
+  forall (chunks : list (list item)) its',
+  Permutation (concat chunks) (proxy_input_v repaired true (map snd (todo_of K st ids inputs))) ->
+  Permutation its' (concat (map (map (source_wrapped chain)) chunks)) ->
+  exists st', write_results_v repaired K st its' = Ok st' /\
+    Permutation (st_done st') (final_done K st (records_of chain (todo_of K st ids inputs))) /\
+    Permutation (st_nc st') (final_nc_r K st (records_of chain (todo_of K st ids inputs))) /\
+    st_logs st' = st_logs st /\ st_mode st' = st_mode st.
+Proof. intros. eapply chunking_r_irrelevant_lemma; eassumption. Qed.
+
+Lemma apply_to_v_logging V K chain st inputs sched :
+  apply_to_v V K chain st inputs sched true =
+    match apply_to_v V K chain st inputs sched false with
+    | Exc e => Exc e
+    | Ok st' =>
+        match check_writable K st' s_dotlog with
+        | Some e => Exc e
+        | None => Ok (mkstore (st_done st') (st_nc st') (st_logs st' + 1) (st_mode st'))
+        end
+    end.
+Proof.
+  unfold apply_to_v. destruct chain as [|c ch]; [reflexivity|].
+  destruct (collect K st [] inputs) as [todo|e]; [|reflexivity].
+  destruct (is_empty inputs); [reflexivity|].
+  destruct (write_results_v V K st _) as [st'|e]; reflexivity.
+Qed.
+
+(** the inputs that made the pinned code drop a record or raise are accounted for by the repaired code:
+    a falsy object, and an object carrying its own .source whose stage returns a NotCompleted without source *)
+Definition nosrc_chain : list step :=
+  [mkstep [103] GENERIC None true
+     (fun v => match v with
+               | VObj _ [107;50] _ _ _ => Ret (VNC s_FALSE [103] [109] None)
+               | VObj c k t s b => Ret (VObj c k (t ++ [103;59]) s b)
+               | _ => Ret VNone end)].
+Definition awkward_inputs : list value :=
+  [VObj [84;65] [107;49] [] (Some [111;49;46;102;97]) false; VObj [84;65] [107;50] [] (Some [111;50;46;102;97]) true].
+
+Lemma repaired_accounts_for_awkward_inputs :
+  map (fun m => unique_id_of (source_of m)) awkward_inputs = map Some [[111;49]; [111;50]] /\
+  (exists st', apply_to_v repaired dict_kind nosrc_chain st0 awkward_inputs (Some [1;0]%nat) false = Ok st'
+               /\ length (st_done st') = 1%nat /\ length (st_nc st') = 1%nat) /\
+  (exists st', apply_to dict_kind nosrc_chain st0 (firstn 1 awkward_inputs) None false = Ok st'
+               /\ length (st_done st') = 0%nat /\ length (st_nc st') = 0%nat) /\
+  apply_to dict_kind nosrc_chain st0 (tl awkward_inputs) None false = Exc E_Type.
+Proof.
+  split; [vm_compute; reflexivity|]. split; [eexists; split; [vm_compute; reflexivity|split; reflexivity]|].
+  split; [eexists; split; [vm_compute; reflexivity|split; reflexivity]|]. vm_compute. reflexivity.
+Qed.
+
+(** a failing input that already has a not-completed record: replaced, not listed twice *)
+Lemma repaired_rerun_no_duplicate :
+  exists s1, puts_r dict_kind (mkstore [] [([97], an_nc)] 0 2) [([97], VNC s_ERROR [108] [110;101;119] None)] = Ok s1 /\
+    st_nc s1 = [([97], VNC s_ERROR [108] [110;101;119] None)].
+Proof. eexists. split; vm_compute; reflexivity. Qed.
